@@ -92,6 +92,12 @@ impl log::Log for SinkLogger {
         let mut c = Count(0);
         let _ = write!(c, "{}", record.args());
         LOG_RECORDS.fetch_add(1, std::sync::atomic::Ordering::Relaxed);
+        // a logger takes time (a file, a pipe, a lock): optionally simulated, so that whatever the
+        // library started while it built the record gets a chance to run before the call returns
+        let d = LOG_DELAY_US.load(std::sync::atomic::Ordering::Relaxed);
+        if d > 0 {
+            std::thread::sleep(std::time::Duration::from_micros(d));
+        }
     }
     fn flush(&self) {}
 }
@@ -101,6 +107,13 @@ static SINK_LOGGER: SinkLogger = SinkLogger;
 pub fn install_logger() {
     let _ = log::set_logger(&SINK_LOGGER);
     log::set_max_level(log::LevelFilter::Off);
+}
+
+static LOG_DELAY_US: std::sync::atomic::AtomicU64 = std::sync::atomic::AtomicU64::new(0);
+
+/// makes every record cost this long (0 = nothing); used by C13's scheduling-sensitive cases
+pub fn set_log_delay_us(us: u64) {
+    LOG_DELAY_US.store(us, std::sync::atomic::Ordering::Relaxed);
 }
 
 pub fn set_logging(on: bool) {
